@@ -340,3 +340,18 @@ for cls_ in ("ContinuousMultiVariable", "MultiObjectiveVariable"):
                                                                  " self._children[r].upper_bound == UB0[r] for r in range(len(LB0)))"),
                       ("caller-lists-untouched", "unchanged(LB0) and unchanged(UB0)")],
              properties=["C13", "C14"])
+
+# get_bounds of BinaryVariable: one pair per bit, [0, 2 - eps] (real arithmetic: A_real; 2 - 2**-52 is a double); n_vars >= 1 is the
+# object invariant that validate_n_vars / the constructor establish (VCs above)
+contract(M + "BinaryVariable.get_bounds", returns="tuple[nd[float], nd[float]]", entry_invariants=["self.n_vars >= 1"],
+         ensures=[("fresh", "fresh(result[0]) and fresh(result[1]) and result[0] is not result[1]"),
+                  ("one-pair-per-bit", "len(result[0]) == self.n_vars and len(result[1]) == self.n_vars"),
+                  ("zero-to-just-below-two", "all(result[0][r] == 0.0 and 1.0 < result[1][r] < 2.0 for r in range(self.n_vars))"),
+                  ("lower-below-upper", "all(result[0][r] < result[1][r] for r in range(self.n_vars))"),
+                  ("pure", "heap_unchanged()")], properties=["C14", "C13"])
+contract(M + "PermutationVariable.get_bounds", returns="tuple[list[float], list[float]]", entry_invariants=["len(self.items) >= 1"],
+         ensures=[("fresh", "fresh(result[0]) and fresh(result[1]) and result[0] is not result[1]"),
+                  ("one-pair-per-item", "len(result[0]) == len(self.items) and len(result[1]) == len(self.items)"),
+                  ("random-key-interval", "all(result[0][r] == 0.0 and result[1][r] == len(self.items) - 0.0001 for r in range(len(self.items)))"),
+                  ("lower-below-upper", "all(result[0][r] < result[1][r] for r in range(len(self.items)))"),
+                  ("pure", "heap_unchanged()")], properties=["C14", "C13"])
